@@ -608,8 +608,7 @@ def _run(chk, R, W, rng, nib, EcatImage):
     for shape, kk in [((2, 3, 4), 2), ((2, 3, 2, 2), 2), ((3, 1, 2, 4), 3), ((1, 1, 3), 2), ((2, 2, 2, 3), 3)]:
         trail = shape[kk:]
         fac = np.arange(int(np.prod(trail)), dtype=np.float64) + 10
-        from nibabel.fileslice import strided_scalar
-        _, b = np.broadcast_arrays(strided_scalar(shape), fac.reshape((1,) * kk + trail, order='F'))
+        _, b = np.broadcast_arrays(np.empty(shape), fac.reshape((1,) * kk + trail, order='F'))
         m = int(np.prod(shape[:kk]))
         want = fac[np.arange(int(np.prod(shape))) // m]
         chk.count(key=('bcast', shape, kk), tag='spec:bcast')
@@ -710,8 +709,9 @@ def _run(chk, R, W, rng, nib, EcatImage):
                 fobjs.append((f, os.path.getsize(rec)))
                 img = PARRECImage.from_file_map({'header': FileHolder(par), 'image': FileHolder(fileobj=f)}, mmap=mmap, scaling=scaling)
             t.img = img
-            if list(img.dataobj._slice_indices) != list(t.spec['ind']):
-                raise RuntimeError(f'generator: sorted slice indices {list(img.dataobj._slice_indices)} != {t.spec["ind"]}')
+            got_ind = [int(v) for v in img.header.get_sorted_slice_indices()]      # public header API
+            if got_ind != list(t.spec['ind']):
+                raise RuntimeError(f'generator: sorted slice indices {got_ind} != {t.spec["ind"]}')
             return img.dataobj, fobjs
         t.build = build_par
         t.gen = {'g': 'parrec', 'shape': list(shape), 'order': ok, 'scaling': scaling}
